@@ -63,6 +63,15 @@ type c18Run struct {
 	Inst     string `json:"inst"`
 	Faults   []int  `json:"faults,omitempty"`
 	Cancel   int    `json:"cancel"` // -1 = never
+	// Fops: what ANOTHER actor (no storage_clean lock) does to the storage just before call number At
+	// of this run (0 = Lock); Why/Race are the generator's labels
+	Fops []c18Fop `json:"fops,omitempty"`
+}
+
+type c18Fop struct {
+	At   int     `json:"at"`
+	Del  bool    `json:"del,omitempty"`
+	Item c18Item `json:"item"` // Store: key + contents; Delete: key only
 }
 
 type c18Spec struct {
@@ -121,6 +130,9 @@ type c18Wrap struct {
 	gate   func()
 	// announce: called just before Lock is forwarded
 	announce func()
+	// foreign: called at the beginning of call number idx (another actor acts on the back-end)
+	foreign  func(idx int)
+	inUnlock bool
 }
 
 var c18ErrInjected = errors.New("injected storage fault")
@@ -135,6 +147,9 @@ func (w *c18Wrap) begin() (idx int, fault bool) {
 	}
 	if w.gate != nil && idx == w.gateAt {
 		w.gate()
+	}
+	if w.foreign != nil && idx > 0 && !w.inUnlock { // other actors act between the cleaner's calls inside the lock
+		w.foreign(idx)
 	}
 	return idx, w.faults[idx]
 }
@@ -157,6 +172,7 @@ func (w *c18Wrap) Lock(ctx context.Context, name string) error {
 }
 
 func (w *c18Wrap) Unlock(ctx context.Context, name string) error {
+	w.inUnlock = true
 	_, fault := w.begin()
 	w.tUnlock = time.Now()
 	i := w.tr.add(c18Event{w.tid, 1, name, !fault})
@@ -362,6 +378,10 @@ type c18Backend interface {
 	mkdir(key string)
 	snapshot() map[string]c18Node
 	close()
+	// what another actor does, not through the logging wrapper: fput returns the directories it had to create
+	// (ok = false: the Store fails -- a directory in the way, a file where a directory is needed -- nothing happens)
+	fput(key string, val []byte) (newDirs []string, ok bool)
+	fdel(key string)
 }
 
 type c18MemBE struct{ b *doubles.MemBackend }
@@ -370,6 +390,16 @@ func (m *c18MemBE) storage() certmagic.Storage { return m.b.Handle("c18") }
 func (m *c18MemBE) put(k string, v []byte)     { m.b.Put(k, v) }
 func (m *c18MemBE) mkdir(string)               {}
 func (m *c18MemBE) close()                     {}
+func (m *c18MemBE) fput(k string, v []byte) ([]string, bool) {
+	for _, x := range m.b.Keys() {
+		if strings.HasPrefix(x, k+"/") || strings.HasPrefix(k, x+"/") {
+			return nil, false
+		}
+	}
+	m.b.Put(k, v)
+	return nil, true
+}
+func (m *c18MemBE) fdel(k string)                    { m.b.Handle("c18-foreign").Delete(context.Background(), k) }
 func (m *c18MemBE) snapshot() map[string]c18Node {
 	out := map[string]c18Node{}
 	for _, k := range m.b.Keys() {
@@ -391,6 +421,25 @@ func (f *c18FsBE) put(k string, v []byte) {
 }
 func (f *c18FsBE) mkdir(k string) { os.MkdirAll(filepath.Join(f.dir, filepath.FromSlash(k)), 0o700) }
 func (f *c18FsBE) close()         { os.RemoveAll(f.dir) }
+func (f *c18FsBE) fput(k string, v []byte) (newDirs []string, ok bool) {
+	parts := strings.Split(k, "/")
+	for i := 1; i < len(parts); i++ {
+		d := strings.Join(parts[:i], "/")
+		fi, err := os.Stat(filepath.Join(f.dir, filepath.FromSlash(d)))
+		if err != nil {
+			newDirs = append(newDirs, d)
+		} else if !fi.IsDir() {
+			return nil, false
+		}
+	}
+	p := filepath.Join(f.dir, filepath.FromSlash(k))
+	if fi, err := os.Stat(p); err == nil && fi.IsDir() {
+		return nil, false
+	}
+	f.put(k, v)
+	return newDirs, true
+}
+func (f *c18FsBE) fdel(k string) { os.RemoveAll(filepath.Join(f.dir, filepath.FromSlash(k))) }
 func (f *c18FsBE) snapshot() map[string]c18Node {
 	out := map[string]c18Node{}
 	filepath.Walk(f.dir, func(p string, info os.FileInfo, err error) error {
@@ -437,7 +486,17 @@ func c18ResClass(err error) int {
 	return 9
 }
 
+// c18FopObs is a foreign operation as performed: Store of Val (Dir: a directory created on the way) or Delete
+type c18FopObs struct {
+	At  int
+	Del bool
+	Dir bool
+	Key string
+	Val []byte
+}
+
 type c18Exec struct {
+	fops    map[int][]c18FopObs // per run (index into spec.Runs)
 	spec    c18Spec
 	before  map[string]c18Node
 	after   map[string]c18Node
@@ -477,7 +536,7 @@ func (m *c18Mat) execute(spec c18Spec) *c18Exec {
 		}
 		be.put(it.Key, m.bytesOf(it, now))
 	}
-	ex := &c18Exec{spec: spec, started: now}
+	ex := &c18Exec{spec: spec, started: now, fops: map[int][]c18FopObs{}}
 	ex.before = be.snapshot()
 	tr := &c18Trace{}
 	obs := make([]c18RunObs, len(spec.Runs))
@@ -508,6 +567,29 @@ func (m *c18Mat) execute(spec c18Spec) *c18Exec {
 		w := &c18Wrap{inner: be.storage(), tid: i, tr: tr, faults: map[int]bool{}, cancelAt: r.Cancel, gateAt: -1}
 		for _, f := range r.Faults {
 			w.faults[f] = true
+		}
+		if len(r.Fops) > 0 {
+			w.foreign = func(idx int) {
+				for _, fo := range r.Fops {
+					if fo.At != idx {
+						continue
+					}
+					if fo.Del {
+						be.fdel(fo.Item.Key)
+						ex.fops[i] = append(ex.fops[i], c18FopObs{At: idx, Del: true, Key: fo.Item.Key})
+						continue
+					}
+					val := m.bytesOf(fo.Item, now)
+					dirs, ok := be.fput(fo.Item.Key, val)
+					if !ok {
+						continue
+					}
+					for _, d := range dirs {
+						ex.fops[i] = append(ex.fops[i], c18FopObs{At: idx, Dir: true, Key: d})
+					}
+					ex.fops[i] = append(ex.fops[i], c18FopObs{At: idx, Key: fo.Item.Key, Val: val})
+				}
+			}
 		}
 		return w
 	}
@@ -658,6 +740,11 @@ func (ex *c18Exec) encode() (wire string, obs map[string]any, feats map[string]s
 	for _, e := range ex.trace {
 		id(e.Key)
 	}
+	for i := range ex.spec.Runs {
+		for _, fo := range ex.fops[i] {
+			id(fo.Key)
+		}
+	}
 	// value table: distinct byte strings of both snapshots; fresh = not among the initial values
 	type val struct {
 		fresh bool
@@ -665,7 +752,15 @@ func (ex *c18Exec) encode() (wire string, obs map[string]any, feats map[string]s
 	}
 	vidx := map[[32]byte]int{}
 	var vals []val
-	for pass, m := range []map[string]c18Node{ex.before, ex.after} {
+	foreignVals := map[string]c18Node{} // what other actors stored during the runs: not fresh
+	for i := range ex.spec.Runs {
+		for j, fo := range ex.fops[i] {
+			if !fo.Del && !fo.Dir {
+				foreignVals[fmt.Sprintf("%d/%d", i, j)] = c18Node{Val: fo.Val}
+			}
+		}
+	}
+	for pass, m := range []map[string]c18Node{ex.before, foreignVals, ex.after} {
 		for _, k := range keysOf(m) {
 			n := m[k]
 			if n.Dir {
@@ -674,7 +769,7 @@ func (ex *c18Exec) encode() (wire string, obs map[string]any, feats map[string]s
 			h := sha256.Sum256(n.Val)
 			if _, ok := vidx[h]; !ok {
 				vidx[h] = len(vals)
-				vals = append(vals, val{fresh: pass == 1, cls: c18Classify(n.Val)})
+				vals = append(vals, val{fresh: pass == 2, cls: c18Classify(n.Val)})
 			}
 		}
 	}
@@ -745,6 +840,19 @@ func (ex *c18Exec) encode() (wire string, obs map[string]any, feats map[string]s
 			e.Bool(true).Int(rs.Cancel)
 		}
 		e.Big(c18UnixNs(r.T0).String()).Big(c18UnixNs(r.T1).String()).Int(r.Res)
+		fos := ex.fops[r.Tid]
+		e.Len(len(fos))
+		for _, fo := range fos {
+			e.Int(fo.At)
+			switch {
+			case fo.Del:
+				e.Int(1).Int(id(fo.Key))
+			case fo.Dir:
+				e.Int(0).Int(id(fo.Key)).Z(-2)
+			default:
+				e.Int(0).Int(id(fo.Key)).Int(vidx[sha256.Sum256(fo.Val)])
+			}
+		}
 	}
 	e.Len(len(ex.trace))
 	for _, ev := range ex.trace {
@@ -1089,6 +1197,138 @@ func (g *c18Gen) spec(hist func(string)) c18Spec {
 	return sp
 }
 
+// ---------------------------------------------------------------- other actors during a cleaning
+
+// c18RaceWindow reports whether a foreign Store of key k just before call number at falls between a
+// read on which the cleaner based a decision to delete and the Delete that covers k (judged on the
+// trace of the same cleaning without interference): Load(X.crt) .. Delete(X.crt|X.key|X.json),
+// Load(staple) .. Delete(staple), List(site folder)=empty, Stat .. Delete(site folder).
+func c18RaceWindow(dry []c18Event, at int, k string) bool {
+	for j := at; j < len(dry); j++ {
+		if dry[j].Kind != 5 {
+			continue
+		}
+		x := dry[j].Key
+		if !(x == k || strings.HasPrefix(k, x+"/")) {
+			continue
+		}
+		d := -1
+		if j >= 2 && dry[j-1].Kind == 4 && dry[j-1].Key == x {
+			d = j - 2 // the listing that found the folder empty
+		} else {
+			for i := j - 1; i >= 0; i-- {
+				if dry[i].Kind == 2 {
+					d = i
+					break
+				}
+			}
+		}
+		if d >= 0 && d < at {
+			return true
+		}
+	}
+	return false
+}
+
+// foreign adds 1-2 foreign operations to the (single) run of sp, placed at calls of the
+// interference-free execution dry; returns whether one of them falls into a race window.
+func (g *c18Gen) foreign(sp *c18Spec, dry []c18Event, hist func(string)) (race bool) {
+	if len(dry) < 4 {
+		return false
+	}
+	run := &sp.Runs[0]
+	var sites, crts, staples, all []string
+	seen := map[string]bool{}
+	for _, it := range sp.Items {
+		if it.Kind != "dir" {
+			all = append(all, it.Key)
+		}
+		p := strings.Split(it.Key, "/")
+		if p[0] == "certificates" && len(p) >= 4 {
+			sk := strings.Join(p[:3], "/")
+			if !seen[sk] {
+				seen[sk] = true
+				sites = append(sites, sk)
+			}
+			if len(p) == 4 && strings.HasSuffix(it.Key, ".crt") {
+				crts = append(crts, it.Key)
+			}
+		}
+		if p[0] == "ocsp" && len(p) == 2 {
+			staples = append(staples, it.Key)
+		}
+	}
+	// one kind of operation at one instant (the generator's race-window label and the monitor's
+	// baseline are defined for that; several writers at several instants multiply windows, not kinds)
+	for q := 0; q < 1; q++ {
+		// aim at the calls around Deletes half of the time (that is where the windows are)
+		at := 1 + g.r.Intn(len(dry)-2)
+		if g.r.Intn(3) != 0 {
+			var dels []int
+			for j, ev := range dry {
+				if ev.Kind == 5 && j >= 2 && j < len(dry)-1 {
+					dels = append(dels, j)
+				}
+			}
+			if len(dels) > 0 {
+				at = dels[g.r.Intn(len(dels))] - g.r.Intn(3)
+				if at < 1 {
+					at = 1
+				}
+			}
+		}
+		add := func(del bool, it c18Item) {
+			run.Fops = append(run.Fops, c18Fop{At: at, Del: del, Item: it})
+			if !del && c18RaceWindow(dry, at, it.Key) {
+				race = true
+			}
+		}
+		kind := g.pick("renew", "renew", "late_expired", "note", "staple", "del", "account")
+		if (kind == "renew" || kind == "late_expired" || kind == "note") && len(sites) == 0 {
+			kind = "account"
+		}
+		if kind == "del" && len(all) == 0 {
+			kind = "account"
+		}
+		hist("foreign=" + kind)
+		switch kind {
+		case "renew": // another instance obtains / renews the certificate of a site: fresh trio in the site folder
+			sk := sites[g.r.Intn(len(sites))]
+			name := sk[strings.LastIndex(sk, "/")+1:]
+			add(false, c18Item{Key: sk + "/" + name + ".crt", Kind: "cert", Off: 60 * 86400})
+			add(false, c18Item{Key: sk + "/" + name + ".key", Kind: "raw", Text: "@key"})
+			add(false, c18Item{Key: sk + "/" + name + ".json", Kind: "raw", Text: `{"renewed":true}`})
+		case "late_expired": // an expired certificate appears (restored backup)
+			sk := sites[g.r.Intn(len(sites))]
+			add(false, c18Item{Key: sk + "/late.crt", Kind: "cert", Off: -400 * 86400})
+			if g.r.Intn(2) == 0 {
+				add(false, c18Item{Key: sk + "/late.key", Kind: "raw", Text: "@key"})
+			}
+		case "note":
+			sk := sites[g.r.Intn(len(sites))]
+			add(false, c18Item{Key: sk + "/note.txt", Kind: "raw", Text: "written meanwhile"})
+		case "staple":
+			k := fmt.Sprintf("ocsp/late.example-%08x", g.r.Uint32())
+			if len(staples) > 0 && g.r.Intn(2) == 0 {
+				k = staples[g.r.Intn(len(staples))] // a staple is refreshed / goes stale under the cleaner's feet
+			}
+			add(false, c18Item{Key: k, Kind: "staple", Off: []int64{7200, -7200}[g.r.Intn(2)]})
+		case "del":
+			k := all[g.r.Intn(len(all))]
+			if len(crts) > 0 && g.r.Intn(2) == 0 {
+				k = crts[g.r.Intn(len(crts))]
+			}
+			if g.r.Intn(4) == 0 && len(sites) > 0 {
+				k = sites[g.r.Intn(len(sites))] // a whole site folder
+			}
+			add(true, c18Item{Key: k})
+		case "account":
+			add(false, c18Item{Key: "acme/le-dir/users/new@example.com/new.key", Kind: "raw", Text: "@key"})
+		}
+	}
+	return race
+}
+
 // ---------------------------------------------------------------- corpus
 
 func c18Corpus() []struct {
@@ -1149,6 +1389,32 @@ func c18Corpus() []struct {
 				class string
 				spec  c18Spec
 			}{"corpus_expiresat_second_rounding", c18Spec{Backend: be, Items: items, Runs: []c18Run{r}, AlignPhase: true}})
+		}
+	}
+	// another instance stores a fresh certificate into the site folder of a long-expired one while the
+	// cleaner works on it. FileStorage (folders exist on their own), calls: 0 Lock, 1 List certificates,
+	// 2 List iss, 3 List site, 4 Load crt, 5-7 Delete crt/key/json, 8 List site (empty), 9 Stat, 10 Delete site,
+	// 11 Store last_clean.json, 12 Unlock.
+	{
+		site := "certificates/iss/dead.example"
+		renew := func(at int) []c18Fop {
+			return []c18Fop{{At: at, Item: c18Item{Key: site + "/dead.example.crt", Kind: "cert", Off: 60 * day}},
+				{At: at, Item: c18Item{Key: site + "/dead.example.key", Kind: "raw", Text: "@key"}},
+				{At: at, Item: c18Item{Key: site + "/dead.example.json", Kind: "raw", Text: `{"renewed":true}`}}}
+		}
+		base := append(full("iss", "dead.example", -30*day), c18Item{Key: "acme/ca/users/u/u.key", Kind: "raw", Text: "@key"})
+		r := c18Run{Certs: true, Grace: 0, Cancel: -1, Inst: "corpus"}
+		for _, c := range []struct {
+			class string
+			at    int
+		}{{"corpus_foreign_writer_before_relist", 8}, {"corpus_foreign_writer_before_load", 4},
+			{"corpus_foreign_writer_toctou_folder", 10}, {"corpus_foreign_writer_toctou_load_delete", 5}} {
+			rr := r
+			rr.Fops = renew(c.at)
+			out = append(out, struct {
+				class string
+				spec  c18Spec
+			}{c.class, c18Spec{Backend: "fs", Items: base, Runs: []c18Run{rr}}})
 		}
 	}
 	// two concurrent cleaners, second one must wait and then skip / clean again
@@ -1229,7 +1495,28 @@ func runC18(tier string, seed int64, outdir string, replay string) error {
 			}
 		}
 		nontrivial := (del > 0 && survivors > 0) || (del == 0 && survivors > 0 && len(ex.trace) >= 3)
-		desc := map[string]any{"class": class, "backend": spec.Backend, "runs": len(spec.Runs), "concurrent": spec.Concurrent}
+		// a foreign Store that fell between a read of the cleaner and the Delete based on it (judged on the
+		// calls the cleaner actually made)
+		race, nForeign := false, 0
+		for i := range spec.Runs {
+			var own []c18Event
+			for _, ev := range ex.trace {
+				if ev.Tid == i {
+					own = append(own, ev)
+				}
+			}
+			for _, fo := range ex.fops[i] {
+				nForeign++
+				if !fo.Del && !fo.Dir && c18RaceWindow(own, fo.At, fo.Key) {
+					race = true
+				}
+			}
+		}
+		desc := map[string]any{"class": class, "backend": spec.Backend, "runs": len(spec.Runs), "concurrent": spec.Concurrent,
+			"foreign_ops": nForeign, "race_window": race}
+		if nForeign > 0 {
+			w.Hist(fmt.Sprintf("foreign_race_window=%v", race))
+		}
 		for k, v := range feats {
 			desc[k] = v
 			w.Hist(k + "=" + v)
@@ -1271,6 +1558,15 @@ func runC18(tier string, seed int64, outdir string, replay string) error {
 	g := &c18Gen{r: rand.New(rand.NewSource(seed))}
 	for i := 0; i < n; i++ {
 		sp := g.spec(w.Hist)
+		if len(sp.Runs) == 1 && g.r.Intn(3) == 0 {
+			// other actors write during the cleaning: place them at calls of the interference-free execution
+			dry := mat.execute(sp)
+			g.foreign(&sp, dry.trace, w.Hist)
+			if len(sp.Runs[0].Fops) > 0 {
+				one("generated_foreign", sp)
+				continue
+			}
+		}
 		one("generated", sp)
 	}
 	w.Meta.Rule = "cases in which a cleaning deleted something while other certificate/staple keys survived, or left deletable-looking material alone (skip, abort, option off); distinct wire lines"
